@@ -25,7 +25,7 @@ Definition SLF (s : state) : Prop := o_sl (s_o s) = None /\ forall j, nosl (a_co
 
 Lemma nosl_programs : forall k, nosl (prog_of k) = true.
 Proof.
-  destruct k as [|n|n|n|n|n|m|j|evs| | |b]; try reflexivity.
+  destruct k as [|n|n|n|n|n|m|j|evs| | |b|]; try reflexivity.
   - cbn [prog_of]. induction evs as [|e evs IH]; [reflexivity|exact IH].
 Qed.
 
@@ -113,7 +113,7 @@ Qed.
    released when the function returns, the closing tag is written in between
    (the yield point close.locked was inside both locks) *)
 Definition pinned_close_code : list op :=
-  [OYield PCloseEnter; OLock; OSLock; OYield PCloseLocked; OMark; OWriteTag; OSUnlock; OUnlock; ORet].
+  [OYield PCloseEnter; OLock; OSLock; OYield PCloseLocked; OMark; OWriteTag false; OSUnlock; OUnlock; ORet].
 
 (* Serve, a Close caller (pinned), a peer that sends an element, and the peer's
    reading side stalling *)
@@ -134,7 +134,7 @@ Definition statelock_statement (init0 : state) : Prop :=
 Lemma pinned_witness : exists s, run step pinned_init pinned_trace = Some s /\
   o_rdy (s_o s) = false /\ o_lock (s_o s) = Some 1 /\ o_sl (s_o s) = Some 1 /\
   o_cl (s_o s) = true /\ o_pend (s_o s) = true /\
-  hd_error (a_code (s_a s 1)) = Some OWriteTag /\ step s 1 = None /\
+  hd_error (a_code (s_a s 1)) = Some (OWriteTag false) /\ step s 1 = None /\
   a_code (s_a s 0) = [OServeRead] /\ i_q (s_i s) = [PElem false false 2] /\ step s 0 = None.
 Proof. vm_compute. eexists. repeat split; reflexivity. Qed.
 
